@@ -39,6 +39,25 @@ class Ctx:
         self.outdir = vlib.fresh_dir(prop)
         self.unreproduced = 0
 
+    # ------------------------------------------------------------------ apalache (inductive invariants)
+    def apalache(self, module, runs, tag, timeout=600):
+        """runs: list of (init, inv, length).  Every run must end with 'NoError'; a counterexample to induction on the
+        unchanged specification is an infrastructure error of the model (exit 2), never a verdict about the code."""
+        wd = os.path.join(self.outdir, "apalache-" + tag)
+        os.makedirs(wd, exist_ok=True)
+        shutil.copy(os.path.join(vlib.SPEC, module + ".tla"), wd)
+        t0 = time.time()
+        for init, inv, length in runs:
+            cmd = ["timeout", str(timeout), "apalache-mc", "check", "--out-dir=" + os.path.join(wd, "out"), "--init=" + init, "--inv=" + inv,
+                   "--length=%d" % length, module + ".tla"]
+            p = subprocess.run(cmd, cwd=wd, stdout=subprocess.PIPE, stderr=subprocess.STDOUT, text=True)
+            if "The outcome is: NoError" not in p.stdout:
+                raise Infra("apalache %s init=%s inv=%s length=%d does not pass:\n%s" % (module, init, inv, length, p.stdout[-2000:]))
+        shutil.rmtree(os.path.join(wd, "out"), ignore_errors=True)
+        self.stages.append({"stage": "apalache:" + tag, "module": module, "obligations": ["%s => %s, length %d" % r for r in runs],
+                            "wall_s": round(time.time() - t0, 1)})
+        log("  apalache %-26s %d obligations discharged, %.1fs" % (tag, len(runs), time.time() - t0))
+
     # ------------------------------------------------------------------ design
     def design(self, module, cfg_text, tag, workers=None, timeout=3000, heap="12g"):
         wd = os.path.join(self.outdir, "design-" + tag)
@@ -833,6 +852,8 @@ def check_C01(ctx):
     maxr, lo, hi = (4, -2, 6) if q else (6, -3, 9)
     ctx.design("MCOrdinals", "CONSTANTS MaxR = %d\n NegLo = %d\n Hi = %d\nINIT Init\nNEXT Next\nCHECK_DEADLOCK FALSE\nINVARIANT Inv\n" % (maxr, -lo, hi if q else 7),
                "ordinals")
+    # unbounded in the slot VALUES (and in r): inductive invariant of the slot walk, Apalache; lists of up to 5 slots
+    ctx.apalache("OrdinalsInd", [("Init", "IndInv", 0), ("IndInit", "IndInv", 1), ("IndInit", "Final", 0)], "slot-walk")
     args = ["ordinals", "--maxr", str(maxr), "--lo", str(lo), "--hi", str(hi), "--nrand", "40" if q else "2000",
             "--ctl-every", "3" if q else "2", "--seed", str(vlib.seed()), "--workers", str(vlib.NCPU)]
     d, shards, meta = ctx.harness(args, "helpers+controller")
